@@ -9,6 +9,12 @@ NOTE_COMMON = ("Trusted: go/ssa lowering (x/tools v0.29.0), the symgo executor's
                "in the evidence file (coverage.bounds / coverage.outside_claim) and DESIGN.md. unknown/timeout/unsupported are reported "
                "as INCONCLUSIVE, never as success or violation. ")
 claimed = {
+ 'C16': dict(cat='model_checking', ref='5/C16',
+   text="Real PCO Marshal/UnMarshal executed symbolically: round trip of every list shape up to 3 (4) units with symbolic identifiers and contents proved to reproduce the specified layout (0x80 first) and equal units; UnMarshal on every byte string up to 8 (10) octets proved panic-free, non-mutating and to return only octets of the input at their positions. PSIToBuf/PSIToBooleanArray proved mutually inverse for all 65536 values in one query each; error-cause interleaving for all list lengths 0..4.",
+   note="Contents per unit <= 3 (6) octets."),
+ 'C17': dict(cat='model_checking', ref='5/C17',
+   text="GPRSTimer2ToNas / GPRSTimer3ToNas on every duration of the property's ranges against decoders from TS 24.008 (never more than requested; exact when representable); ModelsToSessionAMBR through the real strconv code on every 1..5-digit value 0..65535 x 5 units x 2 directions; time-zone text of all 159 quarter-hour zones x DST 0/1/2 against getTimeZoneOffset and the text decoders; universal time round trip over every instant 2000-2099 (abstract time.Time); network names of every length 0..16 (64) unpacked bit by bit per TS 23.038.",
+   note="time.Time is an abstract record (fixed-offset zones, days 1..28)."),
  'C13': dict(cat='model_checking', ref='5/C13',
    text="Library encoders (SnssaiToNas, RejectedSnssaiToNas, RejectedNssaiToNas, TaiListToNas, PartialServiceAreaListToNas, LadnToNas) run symbolically on lists of concrete shape with every SST/SD/TAC/PLMN digit symbolic; their output is decoded field by field by assertions written from the TS 24.501 layouts and proved equal to the input lists. Library decoders (SnssaiToModels, RequestedNssaiToModels, LadnToModels) run on reference encodings of every mix of legal entry lengths and are proved to recover the lists exactly; illegal and truncated entry lengths are proved to be errors.",
    note="List sizes bounded (1..3 entries quick, up to 6 thorough)."),
